@@ -4,7 +4,7 @@
  * getln/substdio = ideal streams (layer 1); stralloc_ready* = arena.
  *
  * Reference (property C19, RFC 1939 sections 3/5/7, qmail-pop3d(8)):
- *   RETR n:  "+OK" line, then every line of the stored file followed by CR LF (the file
+ *   RETR n:  a "+OK" line, then every line of the stored file followed by CR LF (the file
  *            uses LF; a last line without LF is still sent as a line), a line that starts
  *            with '.' gets one more '.' in front, then - qmail-pop3d(8): "appends an
  *            extra blank line to every message" - an empty line, then ". CR LF".
@@ -88,7 +88,6 @@ static void ref_retr(void)
   unsigned int i;
   int bol = 1, inhdr = 1;
   unsigned int body = 0;
-  e('+'); e('O'); e('K'); e(' '); e('\r'); e('\n');
   for (i = 0; i < F; ++i) {
     unsigned char c;
     if (i >= flen) break;
@@ -111,7 +110,7 @@ static void ref_retr(void)
 
 void vmain(void)
 {
-  unsigned int i;
+  unsigned int i, start = 0;
   sym_inputs();
   ASSUME(flen <= F);
   ASSUME(istop <= 1 && topk <= 9 && openfail <= 1);
@@ -136,10 +135,14 @@ void vmain(void)
   CHECK(nclose == 1 && !fd_open, "message descriptor closed again");
   ref_retr();
   CHECK(explen <= OUTMAX, "reference output fits (harness sizing)");
-  CHECK(outlen == explen, "C19: RETR/TOP sends exactly header/body lines + blank line + dot line (length)");
+  /* first line: "+OK" and whatever text up to CR LF (RFC 1939 leaves the text free); the multi-line part follows */
+  CHECK(outlen >= 5 && outb[0] == '+' && outb[1] == 'O' && outb[2] == 'K', "C19: RETR/TOP of a readable message is answered +OK");
+  for (i = 0; i + 1 < 12; ++i) { if (!start && i + 1 < outlen && outb[i] == '\r' && outb[i + 1] == '\n') start = i + 2; }
+  CHECK(start != 0, "the +OK line ends with CR LF");
+  CHECK(outlen - start == explen, "C19: RETR/TOP sends exactly header/body lines + blank line + dot line (length)");
   for (i = 0; i < OUTMAX; ++i) {
-    if (i >= outlen || i >= explen) break;
-    CHECK(outb[i] == expb[i], "C19: LF -> CR LF, leading dots stuffed, extra blank line, lone-dot terminator (bytes)");
+    if (i >= explen || start + i >= outlen) break;
+    CHECK(outb[start + i] == expb[i], "C19: LF -> CR LF, leading dots stuffed, extra blank line, lone-dot terminator (bytes)");
   }
   if (!istop && flen == F && file[0] == '.' && file[F - 1] != '\n') WITNESS("retr_dot_line_and_partial_last_line");
   if (istop && topk == 1 && fpos < flen) WITNESS("top_cut_short");
